@@ -257,6 +257,36 @@ def gen_item(job):
         for rel, content in custom.items():
             if not os.path.exists(os.path.join(target0, rel)) or open(os.path.join(target0, rel), "rb").read() != content:
                 res["fails"].append(("regenerate", "hand-written file %s was modified or removed by regeneration" % rel))
+    # entries the generator does not own survive a generation: a non-empty directory sitting at the path of a file
+    # the generator wants to write, a user directory and a user file beside generated files (whatever the exit code)
+    if not res["fails"]:
+        t = os.path.join(scdir, "userfiles-%s-%s" % (gen, e["Dir"]))
+        gen_files = []
+        for root, _, files in os.walk(target0):
+            for f in sorted(files):
+                if f.endswith(".gr.go"):
+                    gen_files.append(os.path.relpath(os.path.join(root, f), target0))
+        gen_files.sort()
+        user = {}
+        if gen_files:
+            g0 = gen_files[len(gen_files) // 2]
+            user[os.path.join(g0, "notes.txt")] = b"mine\n"
+            user[os.path.join(g0, "patches", "0001.diff")] = b"--- a\n+++ b\n"
+            user[os.path.join(os.path.dirname(g0), "NOTES.md")] = b"# notes\n"
+        user[os.path.join("mine", "readme.txt")] = b"not generated\n"
+        for rel, content in user.items():
+            pth = os.path.join(t, rel)
+            os.makedirs(os.path.dirname(pth), exist_ok=True)
+            open(pth, "wb").write(content)
+        rc, out = gen_once(e, rots[0], t)
+        res["runs"] += 1
+        res["userfiles"] = True
+        for rel, content in sorted(user.items()):
+            pth = os.path.join(t, rel)
+            if not os.path.isfile(pth) or open(pth, "rb").read() != content:
+                res["fails"].append(("user-files", "user file %s was removed or changed by a generation (generator exit %d)" % (re.sub(r"^.*?/(?=[^/]+\.gr\.go/)", "<pkg>/", rel), rc)))
+                break
+        rmtree(t)
     # v2: the package-root layout must hold the same tree below <outdir>/<packageRoot>
     if gen == "v2" and not res["fails"]:
         t = os.path.join(scdir, "pkgroot-%s-%s" % (gen, e["Dir"]))
@@ -311,6 +341,8 @@ def run_part_a(sc, tier, gens, only=None, t_deadline=None, select=None, rots=Non
         sp = Sub("v2: every item generated once more with the package-root layout (custom typeref files placed below <outdir>/<packageRoot>): the tree below <outdir>/<packageRoot> equals the flat one byte for byte")
         sc_ = Sub("every generated tree compiled in isolation (own package root inside one module): go build")
         sv = Sub("every generated tree including its generated tests: go vet")
+        su = Sub("every item generated into a directory that already holds a non-empty user directory at the path of a generated file, a user file beside generated files and a user directory: all of them byte for byte untouched, whatever the generator's exit code")
+        subs[gen + "/user-files"] = su.d
         if gen == "v2":
             subs[gen + "/package-root-layout"] = sp.d
         subs.update({gen + "/generate": sg.d, gen + "/deterministic": sd.d, gen + "/regenerate": sr.d, gen + "/compile": sc_.d, gen + "/vet": sv.d})
@@ -324,9 +356,13 @@ def run_part_a(sc, tier, gens, only=None, t_deadline=None, select=None, rots=Non
             e = res["e"]
             sg.d["states"] += 1
             sg.ev(1)
-            sd.ev(max(0, res["runs"] - 2 - (1 if res.get("pkgroot") else 0)))
+            sd.ev(max(0, res["runs"] - 2 - (1 if res.get("pkgroot") else 0) - (1 if res.get("userfiles") else 0)))
             sr.ev(1)
             kinds = set(k for k, _ in res["fails"])
+            if res.get("userfiles"):
+                su.ev(1)
+                su.d["states"] += 1
+                su.cls("touched" if "user-files" in kinds else "untouched")
             if res.get("pkgroot"):
                 sp.ev(1)
                 sp.d["states"] += 1
